@@ -3,6 +3,7 @@ from __future__ import annotations
 
 import ast
 import random
+import re
 import textwrap
 
 from .. import base
@@ -15,13 +16,13 @@ RULE = ("inputs are assembled from known parts: call macros f!(a1, a2, ...) from
         "brackets/strings) or the one-line form; subprocess macros from raw rest texts; the constants in the call_macro / enter_macro / subproc_* nodes "
         "must equal the construction, and the statements placed after the macro must parse to what they parse to alone (line-shifted); an independent "
         "bracket/string-aware splitter cross-checks the generator; distinct non-trivial = distinct programs with >= 1 macro and >= 8 characters")
-ASSUMPTIONS = ["whitespace-only / empty call-macro arguments are outside the quantifier (finding F03c1 covers the crash)",
+ASSUMPTIONS = ["a white-space-only call-macro argument between two commas must be passed as it is or refused like the empty one (never dropped); trailing blank text before ')' is a trailing comma",
                "blank lines between a with-macro block and the next statement belong to the block (pinned by tests/test_with_macros.py)"]
 
 NAMES = ["x", "y1", "foo", "_a", "é", "import os", "if True", "lambda: 0", "not in", "x=10", "a b c", "1 + 2", "...", "->", "**kw", "*a", "a.b.c", "3.14", "0x1f", "yield", "for i in j"]
 STRS = ['f"{x},{y}"', 'f","', 'f"{x},"', 'f"){x}("', 'f"]{x}["', "f'{x}}}{{'", 'f"{x:,}"', "f'''{a},\n{b}'''", "'s'", '"oh my, kadavule!"', "'a,b'", '"(["', "'''t,r\ni'''", "r'\\d,'", "b'x'", "f'{a}'", "'\\''", '"]"', "'#no comment'", "p'/a,b'"]
 XONSH = ["$X", "$(ls -l)", "![a b]", "@(x)", "${x + y}", "$[ls, -l]", "@$(which xonsh)", "!(a, b)", "`a,b`", "g`*.py`", "x?", "a && b", "$(echo (a, b))" if False else "$(echo a,b)"]
-OPS = [" + ", " - ", "*", " and ", " = ", ": ", " if ", " | ", ".", " ", "  ", " == ", " := ", " @ ", " // "]
+OPS = [" + ", " - ", "*", " and ", " = ", ": ", " if ", " | ", ".", " ", "  ", " == ", " := ", " @ ", " // ", " \\\n ", " + \\\n"]
 
 
 def arg_text(rnd, depth=0):
@@ -152,7 +153,9 @@ def run_case(acc, case):
         acc.sample({"kind": case["kind"], "src": src[:140], "expected": case["expected"][:3]})
     if not out.accepted:
         fid = classify_reject(case, out)
-        if fid:
+        if fid and fid.startswith("ok:"):
+            acc.count(fid[3:].replace("-", "_"))
+        elif fid:
             acc.finding(fid, src[:80])
         else:
             acc.violation("macro-program-rejected", case, {"outcome": out.brief()})
@@ -170,7 +173,7 @@ def run_case(acc, case):
     elif case["kind"] in ("with", "with-oneline"):
         calls = macro_calls(tree, "__xonsh__.enter_macro")
         obs = [c.args[1].value if len(c.args) > 1 and isinstance(c.args[1], ast.Constant) else None for c in calls]
-        if obs != case["expected"]:
+        if obs != case["expected"] and obs != case.get("alt_expected"):
             acc.violation("with-macro-body-not-verbatim", case, {"expected": case["expected"], "observed": obs})
             return
     elif case["kind"] == "subproc":
@@ -191,23 +194,43 @@ def run_case(acc, case):
             if "\n" in rest and obs and obs[0] and obs[0][:-1] == case["expected"][0][:-1] and obs[0][-1] == rest.replace("\n", "").strip():
                 acc.finding("F07b", src[:80])
                 return
+            if outside_whitelist(rest) and obs and obs[0] and obs[0][:-1] == case["expected"][0][:-1]:
+                acc.finding("F07d", src[:80])  # only the raw text differs (a non-ASCII blank deleted, a backtick path turned into a call)
+                return
             acc.violation("subprocess-macro-text-not-verbatim", case, {"expected": case["expected"], "observed": obs})
             return
     check_follow(acc, case, tree, case.get("follow", ""), case.get("lines_before_follow", 0))
 
 
 def classify_reject(case, out):
+    if case.get("ws_arg") and out.kind == "syntax" and "empty macro argument" in str(getattr(out.exc, "msg", "")):
+        return "ok:ws-only-argument-refused"
     if case["kind"] == "with" and case.get("first_line_is_comment_or_blank"):
         return "F07a"
-    if case["kind"] == "subproc" and "}" in case.get("rest", "") and out.kind == "syntax":
+    if case["kind"] == "subproc" and out.kind == "syntax" and outside_whitelist(case.get("rest", "")):
         return "F07d"
     return None
+
+
+_NESTED_GROUP = re.compile(r"[(\[][^()\[\]]*[(\[]")
+
+
+def outside_whitelist(rest):
+    """input side of finding F07d: the raw text holds something the token-by-token matcher `(cmd_group | any_cmd)*` has no case for - a brace,
+    a bracket group inside another bracket group, `@(` / `@$(`, an f-string, a backtick path, a backslash, or a character that is neither
+    ASCII nor part of an identifier"""
+    if any(t in rest for t in ("{", "}", "@(", "@$(", "`", "\\")):
+        return True
+    if _NESTED_GROUP.search(rest) or re.search(r"(?i)\b[rp]?f[rp]?['\"]", rest):
+        return True
+    return any((not ch.isascii()) and not (ch.isalnum() or ch == "_") for ch in rest)
 
 
 def gen_call(rnd):
     nmac = 1 if rnd.random() < 0.7 else 2
     expected = []
     macs = []
+    ws_arg = False
     for _ in range(nmac):
         k = rnd.randint(1, 3)
         args = []
@@ -215,6 +238,10 @@ def gen_call(rnd):
             core = arg_text(rnd)
             a = rnd.choice(["", "", " ", "  "]) + core + rnd.choice(["", "", " "])
             args.append(a)
+        if len(args) >= 2 and rnd.random() < 0.05:
+            # an interior argument that is white space only: passed as it is or refused like the empty one, never dropped (the later ones would shift)
+            args.insert(rnd.randint(1, len(args) - 1), rnd.choice([" ", "  ", "\t"]))
+            ws_arg = True
         inside = ",".join(args)
         if split_args(inside) != args:
             return None  # generator self-check failed: never judge the code under test with a doubtful expectation
@@ -237,11 +264,19 @@ def gen_call(rnd):
         stmt = macs[0] + "; t = 5\n"
     follow = rnd.choice(FOLLOW + [""])
     src = stmt + follow
-    return {"kind": "call", "src": src, "expected": expected, "follow": follow, "lines_before_follow": stmt.count("\n")}
+    return {"kind": "call", "src": src, "expected": expected, "follow": follow, "lines_before_follow": stmt.count("\n"), "ws_arg": ws_arg}
 
 
 BLOCK_LINES = ["ls -l", "x = 42", "echo $PATH", 'export PATH="yo:momma"', "pass", "a b c d", "if True:", "for x in range(6):", "with q as t:", "else:", "v = [1,\n     2,\n  3]",
-               "s = '''a\n  b\n'''", "print('it''s')", "$(raw (text) here)", "a = {1: 'x', 2: (3, 4)}", "import os; os.x", "not python at all !", "f!(x, y)", "# a comment", "", "q = \"#\" # c"]
+               "s = '''a\n  b\n'''", "print('it''s')", "$(raw (text) here)", "a = {1: 'x', 2: (3, 4)}", "import os; os.x", "not python at all !", "f!(x, y)", "# a comment", "", "q = \"#\" # c",
+               # multi-line strings whose inner lines hold characters that str.splitlines() treats as line ends, and f-strings whose literal part ends a line
+               "s = '''a\x0cb\n  c\n  d'''", "t = '''u\u2028v\nw'''", "r = '''x\x1cy\x85z\n'''", "a = f'''\n    foo\n'''", "b = f'''{k}\n  m\n''' + '''\n'''", "c = g(f'''\n{k}\n\n''')"]
+
+
+def _lf_lines(text):
+    """physical lines, split at line feeds only (keeping them)"""
+    parts = text.split("\n")
+    return [p + "\n" for p in parts[:-1]] + ([parts[-1]] if parts[-1] else [])
 
 
 def gen_with(rnd):
@@ -273,25 +308,39 @@ def gen_with(rnd):
     trailing = ""
     if rnd.random() < 0.15:
         trailing = "\n"
+    tail_comment = rnd.choice(["# after the block\n", "# a\n\n# b\n", "#\n"]) if rnd.random() < 0.12 else ""
     follow = rnd.choice(FOLLOW)
     outer = rnd.random() < 0.25
-    head = f"with! {ctx}:\n"
+    # blanks or a comment after the colon do not change the form of the statement
+    head = f"with! {ctx}:" + rnd.choice(["", "", "", "", " ", "  ", "\t", "  # c", " #c"]) + "\n"
     if outer:
         # macro nested in a block
         ind = "    "
-        src = "if cond:\n" + ind + head + "".join((ind + l) if l.strip() else l for l in block.splitlines(keepends=True)) + trailing + follow
+        # comment lines at the with statement's own indentation (or further left) after the block are outside it
+        tail = "".join(ind + l if l.strip() else l for l in _lf_lines(tail_comment)) if not trailing else ""
+        src = "if cond:\n" + ind + head + "".join((ind + l) if l.strip() else l for l in _lf_lines(block)) + trailing + tail + follow
         expected_body = textwrap.dedent(block + trailing)
-        lines_before = 1 + head.count("\n") + block.count("\n") + trailing.count("\n")
+        lines_before = 1 + head.count("\n") + block.count("\n") + trailing.count("\n") + tail.count("\n")
         return {"kind": "with", "src": src, "expected": [expected_body], "follow": follow, "lines_before_follow": lines_before,
                 "first_line_is_comment_or_blank": first == "" or first.startswith("#")}
-    src = head + block + trailing + follow
+    if rnd.random() < 0.12:
+        # the block ends the input, with or without a final line end
+        body = block if rnd.random() < 0.5 else block[:-1]
+        return {"kind": "with", "src": head + body, "expected": [textwrap.dedent(block)], "alt_expected": [textwrap.dedent(block)[:-1]], "follow": "", "lines_before_follow": 0,
+                "first_line_is_comment_or_blank": first == "" or first.startswith("#")}
+    tail = tail_comment if not trailing else ""
+    src = head + block + trailing + tail + follow
     return {"kind": "with", "src": src, "expected": [textwrap.dedent(block + trailing)], "follow": follow,
-            "lines_before_follow": head.count("\n") + block.count("\n") + trailing.count("\n"),
+            "lines_before_follow": head.count("\n") + block.count("\n") + trailing.count("\n") + tail.count("\n"),
             "first_line_is_comment_or_blank": first == "" or first.startswith("#")}
 
 
 REST = ["x + y", "bang! and more", "recurse() and more", "recurse[] and more", "recurse!() and more", "recurse$[] and more", "!!!", "(!)", "[!]", "!(ls)", '"!)"', "x", "",
-        "if x: y", "import this", "a, b, c", "'q' \"w\"", "-n  --flag=1", "$HOME ${x} @(y)", "a   b\tc", "1 2 3.5 0x1f", "# not a comment" if False else "a:b", "{k: v}", "lambda: 0", "é ü", "a\n b"]
+        "if x: y", "import this", "a, b, c", "'q' \"w\"", "-n  --flag=1", "$HOME ${x} @(y)", "a   b\tc", "1 2 3.5 0x1f", "# not a comment" if False else "a:b", "{k: v}", "lambda: 0", "é ü", "a\n b",
+        # outside the matcher's token whitelist (finding F07d)
+        "(a (b))", "[a [b]] c", "x @(y)", "@$(w z)", 'f"a{b}"', "`a*`", "a\\b", "€ x", "a\xa0b", "${x} y",
+        # inside it
+        "a $(b c) d", "(a) [b]", "a;b | c", "p'/x' r'\\d'", "a ? b??", "0x1f 1e5 1_0"]
 
 
 def gen_subproc(rnd):
@@ -319,6 +368,15 @@ def gen_subproc(rnd):
     return {"kind": "subproc", "src": stmt + follow, "expected": [cmd_words + [rest.strip()]], "rest": rest, "follow": follow, "lines_before_follow": stmt.count("\n")}
 
 
+def crlf_variant(case):
+    """the same program with CRLF line ends: the entry points read a source with universal newlines (as CPython and text-mode files do), so
+    every text a macro receives is the one of the LF program"""
+    c = dict(case)
+    c["src"] = case["src"].replace("\n", "\r\n")
+    c["crlf"] = True
+    return c
+
+
 def run_shard(shard):
     acc = Acc()
     if "replay" in shard:
@@ -331,6 +389,8 @@ def run_shard(shard):
         if case is None:
             acc.count("generator_selfcheck_rejected")
             continue
+        if rnd.random() < 0.08 and "\r" not in case["src"] and "\\\n" not in case["src"]:
+            case = crlf_variant(case)
         run_case(acc, case)
     return acc.dump()
 
